@@ -1,4 +1,5 @@
 mod c11;
+mod util;
 mod c12;
 
 fn main() {
